@@ -150,7 +150,7 @@ Proof.
   destruct (sin_cos_atan2 (- E) (- N) Hnz') as [S C].
   replace (- N * - N + - E * - E) with (N * N + E * E) in * by ring.
   pose proof PI_RGT_0 as HP.
-  unfold is_azimuth. split; [apply pymod_range; lra|].
+  unfold is_azimuth. split; [pose proof (pymod_range (atan2 (- E) (- N) + PI) (2 * PI)) as PR; lra|].
   rewrite sin_pymod_2PI, cos_pymod_2PI.
   rewrite sin_plus, cos_plus, sin_PI, cos_PI, S, C.
   assert (Hh : 0 < sqrt (N * N + E * E)).
@@ -176,10 +176,18 @@ Proof.
   assert (Hhh : sqrt (N * N + E * E) * sqrt (N * N + E * E) = N * N + E * E) by (apply sqrt_sqrt; nra).
   set (h := sqrt (N * N + E * E)) in *.
   pose proof (atan_bound (- E / - N)) as AB.
-  unfold is_azimuth, ite_lt. fold h. clearbody h.
-  destruct (Rlt_dec 0 (- N)) as [HN|HN].
+  unfold is_azimuth, ite_lt, ite_le. fold h. clearbody h.
+  (* the comparisons may be written strictly or not: both readings are covered *)
+  assert (HNcases : (0 < - N) \/ (0 < N)) by (destruct (Rlt_dec 0 (- N)); [left; assumption|right; lra]).
+  match goal with
+  | |- context [Rlt_dec 0 (- N)] => destruct (Rlt_dec 0 (- N)) as [HN|HN]
+  | |- context [Rle_dec 0 (- N)] => destruct (Rle_dec 0 (- N)) as [HN|HN]
+  end; [assert (HN0 : 0 < - N) by (destruct HNcases; lra); clear HN; rename HN0 into HN|].
   - (* N < 0: atan + PI, in (PI/2, 3PI/2) *)
-    destruct (Rlt_dec (atan (- E / - N) + PI) 0) as [H0|H0]; [lra|].
+    match goal with
+    | |- context [Rlt_dec (atan (- E / - N) + PI) 0] => destruct (Rlt_dec (atan (- E / - N) + PI) 0) as [H0|H0]
+    | |- context [Rle_dec (atan (- E / - N) + PI) 0] => destruct (Rle_dec (atan (- E / - N) + PI) 0) as [H0|H0]
+    end; [lra|].
     assert (Es : sqrt (1 + (- E / - N)²) = h / - N).
     { apply sqrt_lem_1.
       - apply Rplus_le_le_0_compat; [lra|apply Rle_0_sqr].
@@ -188,14 +196,17 @@ Proof.
         rewrite Hhh. field. lra. }
     split; [lra|].
     rewrite sin_plus, cos_plus, sin_PI, cos_PI, sin_atan, cos_atan, Es. split; field; lra.
-  - assert (HN' : 0 < N) by lra.
+  - assert (HN' : 0 < N) by (destruct HNcases; lra).
     assert (Es : sqrt (1 + (- E / - N)²) = h / N).
     { apply sqrt_lem_1.
       - apply Rplus_le_le_0_compat; [lra|apply Rle_0_sqr].
       - apply Rlt_le, Rdiv_lt_0_compat; lra.
       - unfold Rsqr. replace (h / N * (h / N)) with ((h * h) / (N * N)) by (field; lra).
         rewrite Hhh. field. lra. }
-    destruct (Rlt_dec (atan (- E / - N)) 0) as [H0|H0].
+    match goal with
+    | |- context [Rlt_dec (atan (- E / - N)) 0] => destruct (Rlt_dec (atan (- E / - N)) 0) as [H0|H0]
+    | |- context [Rle_dec (atan (- E / - N)) 0] => destruct (Rle_dec (atan (- E / - N)) 0) as [H0|H0]
+    end.
     + split; [lra|].
       replace (atan (- E / - N) + 2 * PI) with (atan (- E / - N) + 2 * 1 * PI) by ring.
       rewrite (sin_period _ 1), (cos_period _ 1), sin_atan, cos_atan, Es. split; field; lra.
